@@ -33,6 +33,8 @@ type Script struct {
 	GenesisJSON string `json:"genesis_json,omitempty"`
 	PerTx       bool   `json:"per_tx,omitempty"`
 	PerTxFrom   int64  `json:"per_tx_from,omitempty"`
+	// Opts: node-local configuration
+	Opts NodeOpts `json:"opts,omitempty"`
 }
 
 type Step struct {
@@ -180,6 +182,8 @@ func (e *Executor) offchain(op MidOp) {
 				res.Value = strings.Join(nodes, ",")
 				res.Digest = dig(nodes)
 			}
+		case "relay", "relayburst", "evidence", "autotx":
+			e.relayOp(op, res)
 		default:
 			res.Err = "unknown off-chain op " + op.Kind
 		}
@@ -256,7 +260,15 @@ func (e *Executor) RunBlockStep(st Step) {
 	trans := n.TransientCounts()
 	// transactions described as "dyn:{...}" are built now, from what is committed at this moment
 	blk := *st.Block
-	blk.Txs = append([]string{}, st.Block.Txs...)
+	blk.Txs = nil
+	for _, t := range st.Block.Txs {
+		if t == "pending" { // the node's own broadcast transactions collected so far
+			blk.Txs = append(blk.Txs, n.Pending...)
+			n.Pending = nil
+			continue
+		}
+		blk.Txs = append(blk.Txs, t)
+	}
 	for i, t := range blk.Txs {
 		if strings.HasPrefix(t, "dyn:") {
 			var d DynTx
@@ -283,7 +295,9 @@ func (e *Executor) RunBlockStep(st Step) {
 	}
 	var txs []TxRes
 	for i := 0; n.Remaining() > 0; i++ {
-		at(i)
+		if i < len(st.Block.Txs) {
+			at(i)
+		}
 		txs = append(txs, n.DeliverNext())
 		if perTx {
 			sn := midSnap()
@@ -342,7 +356,7 @@ func ChildMain(args []string) int {
 
 // RunScript executes the script in this process.
 func RunScript(sc Script, out func(Record), audit bool) int {
-	cfg := NodeCfg{Gen: sc.Gen, Cache: sc.Cache, GenesisJSON: sc.GenesisJSON}
+	cfg := NodeCfg{Gen: sc.Gen, Cache: sc.Cache, GenesisJSON: sc.GenesisJSON, Opts: sc.Opts}
 	if sc.OnDisk != "" {
 		cfg.AppDB, cfg.BlockDB, cfg.TxDB = openDiskDBs(sc.OnDisk)
 	}
